@@ -2,6 +2,7 @@ import TacklerModel.Props.E2Eb
 import TacklerModel.Props.C11
 import TacklerModel.Props.C17b
 import TacklerModel.Props.C16
+import TacklerModel.Props.C09
 /-!
 # E2Ec — end-to-end theorems, third part: displayed figures, account selectors, report zone
 
@@ -333,6 +334,46 @@ theorem text_zone_regroups_only (cfg : Time.TsCfg) (st st' : Settings) (text : L
       ((groupCandidates (groupKey g tz) txns).map (fun kg => C02.ownSum (postsOf kg.2) k)).sum
         = C02.ownSum (postsOf txns) k :=
   loaded_zone_regroups_only st st' ts (loaded_of_text cfg st st' text ts hload) txns hsel _ _
+
+
+/-! ## 3b. C09 — audit mode from journal text, one file or many -/
+
+/-- **C09 end to end — `loaded_audit_set`.**  After a load in audit mode – from one text, from several files, from a git
+    commit: anything that establishes `Loaded` – and for any filter: the transaction set is produced **iff** the
+    canonical UUIDs of the *selected* transactions are pairwise different, wherever those transactions were read from
+    (two files, one file); it then carries the number selected and the prescribed checksum.  Every loaded transaction
+    carries a UUID. -/
+theorem loaded_audit_set (st st' : Settings) (ts : List Txn) (hl : Loaded st ts st') (ha : st.audit = true)
+    (alg : Hash.Algo) (tf : Txn → Bool) :
+    (∀ t ∈ ts, t.header.uuid.isSome = true) ∧
+    TxnData.filter (getHash st alg) tf ts =
+      if (C09.uuidsOf (ts.filter tf)).Nodup then .ok ⟨some (C09.specItem alg (ts.filter tf)), ts.filter tf⟩ else .err := by
+  obtain ⟨rs, acc, _, hacc, rfl⟩ := hl
+  obtain ⟨_, huu, _⟩ := C09.audit_requires_uuid_journal st st' rs acc ha hacc
+  have hall : ∀ t ∈ sortTxns acc, t.header.uuid.isSome = true := fun t ht => huu t ((mem_sortTxns acc t).mp ht)
+  refine ⟨hall, ?_⟩
+  have hf : C09.allHaveUuid ((sortTxns acc).filter tf) = true := by
+    apply List.all_eq_true.mpr
+    intro t ht
+    exact hall t (List.mem_filter.mp ht).1
+  simp [getHash, ha, C09.filter_outcome, hf]
+
+/-- `loaded_audit_set` for several journal files (`paths_to_txns`): a UUID shared by transactions of *different* files
+    is a duplicate like any other -/
+theorem files_audit_set (cfg : Time.TsCfg) (st st' : Settings) (files : List (List Char)) (ts : List Txn)
+    (hload : loadFiles cfg st files = .ok (ts, st')) (ha : st.audit = true) (alg : Hash.Algo) (tf : Txn → Bool) :
+    (∀ t ∈ ts, t.header.uuid.isSome = true) ∧
+    TxnData.filter (getHash st alg) tf ts =
+      if (C09.uuidsOf (ts.filter tf)).Nodup then .ok ⟨some (C09.specItem alg (ts.filter tf)), ts.filter tf⟩ else .err :=
+  loaded_audit_set st st' ts (loaded_of_files cfg st st' files ts hload) ha alg tf
+
+/-- … and for one journal text -/
+theorem text_audit_set (cfg : Time.TsCfg) (st st' : Settings) (text : List Char) (ts : List Txn)
+    (hload : loadText cfg st text = .ok (ts, st')) (ha : st.audit = true) (alg : Hash.Algo) (tf : Txn → Bool) :
+    (∀ t ∈ ts, t.header.uuid.isSome = true) ∧
+    TxnData.filter (getHash st alg) tf ts =
+      if (C09.uuidsOf (ts.filter tf)).Nodup then .ok ⟨some (C09.specItem alg (ts.filter tf)), ts.filter tf⟩ else .err :=
+  loaded_audit_set st st' ts (loaded_of_text cfg st st' text ts hload) ha alg tf
 
 /-! ## 4. Non-vacuity: the sample text of `Props/E2E.lean` through the new theorems -/
 namespace ExC
